@@ -367,6 +367,10 @@ func (p *parser) unary() Expr {
 		return &EUn{"-", p.unary()}
 	case p.accept("^"):
 		return &EUn{"^", p.unary()}
+	case p.isOp("&"):
+		// &G : the address of a package-level variable (e.g. &DisconnectBadRequest)
+		p.next()
+		return &EUn{"&", p.unary()}
 	}
 	return p.postfix()
 }
